@@ -13,6 +13,17 @@ RULE = ("random single-inheritance chains (depth<=3, attrs classes via attr.s/de
         "on_setattr x pre/post}; per class several call shapes (positional prefix x keyword subset x malformed). "
         "Every call is observed with the identities of the converter/factory invocations it made (in order, arguments blanked); "
         "a call that stored a callback-produced value is made twice and those values must be distinct objects. "
+        "Harness-only variation the model is independent of (initbuild): the exception root of exception chains (Exception, "
+        "BaseException, KeyboardInterrupt, SystemExit, GeneratorExit, ValueError); a DEFINITION HISTORY per chain -- a decoy "
+        "chain of the same layout first, 0-2 other subclasses ('siblings') of each class of the chain created before the chain "
+        "continues (twins of the next class with class-level kw_only / slots / collection mode toggled, or fresh classes of "
+        "another front-end, with identity/copying field_transformers, some re-using the chain's attr.ib() objects and "
+        "decorating them further), decorator OBJECTS (attr.s(..)/define(..)/frozen(..)) that were first applied to 0-2 "
+        "throw-away classes of other declaration styles and are shared by all classes of a build with the same options; "
+        "validators written as callable / list / and_() object / one and_() object shared by several fields and classes / "
+        "`@x.validator`, takes-self factories also as `@x.default`; argument VALUES that are mostly opaque tokens, None, '' "
+        "and, for 12% of the values, objects with unusual special methods (equal to everything, equal to nothing, raising "
+        "comparison, element-wise comparison with ambiguous truth value, falsy, unhashable). "
         "Non-trivial = the class has >=1 field that is not (mandatory, positional, no converter); distinct = distinct (class spec, call). "
         "Thorough tier only (T3): additionally one `script` case per generated class -- the real source text of its "
         "__init__/__attrs_init__ parsed into the IR of Model/InitIR.lean and compared syntactically with the model generator's script")
@@ -20,6 +31,10 @@ ASSUMPTIONS = [
     "CPython argument binding is modelled by `Init.bind` and diff-tested here",
     "expected field order for a chain is computed by the harness from the specification (nearest definition wins); C07 checks collection itself",
     "which names are slot-backed along the MRO is read from the real class layout (C08 checks slot creation)",
+    "the definition history (decoy / sibling / warm-up classes, shared decorator and validator objects), the exception root and "
+    "the special methods of argument objects are variation the specification does not mention: the expected observation is "
+    "computed from the chain under test alone, so any influence of the history on it is reported; sibling / warm-up classes "
+    "whose own definition attrs rejects are skipped (they only serve as history)",
     "T3: harness/ir_from_source.py (ast -> IR) is trusted to translate faithfully; it checks that the text it reads compiles "
     "to the code object that runs, and turns anything it does not recognise into an `unknown` statement (a visible disagreement)",
 ]
@@ -38,6 +53,9 @@ LEVEL_TEXT = ("Lean theorems about the executable model of _make_init_script/_at
               "every class and environment -- so on those classes the theorems hold for all call shapes of the text that runs, "
               "not only the sampled ones. The observed script is also executed in Lean on every subset of its optional "
               "parameters (<=64 calls, each callback failing in turn) against C01.spec/C02.spec.")
+
+
+ODD = 0.12       # share of argument values that are objects with unusual __eq__/__ne__/__bool__/__hash__
 
 
 def make_case(hspec, call):
@@ -65,7 +83,7 @@ def gen_cases(tier, rng):
             yield {"__gen_error__": f"{type(e).__name__}: {e}", "hspec": h}
             continue
         for _ in range(4):
-            yield make_case(h, ib.gen_call(rng, h))
+            yield make_case(h, ib.gen_call(rng, h, odd=ODD))
         if tier == "thorough":
             yield make_script_case(h)
 
@@ -152,7 +170,87 @@ def dist(case, obs):
         "is_exc": r["cfg"]["isExc"], "pre": r["cfg"]["pre"],
         "exc": obs.get("exc") if isinstance(obs, dict) else "?",
         "n_kw": len(case["call"]["kw"]), "n_pos": len(case["call"]["pos"]),
+        **history_dist(case),
     }
+
+
+def history_dist(case):
+    """the harness-only dimensions (definition history, exception root, odd argument objects)"""
+    h = case["hspec"]
+    cl = h["classes"]
+    vals = list(case.get("call", {}).get("pos", [])) + [v for _, v in case.get("call", {}).get("kw", [])]
+    odd = sorted({m.group(1) for m in (ib._ODD_RE.match(v) for v in vals) if m})
+    fs = [f for cs in cl for f in cs.get("fields", [])]
+    return {
+        "exc_root": cl[0].get("exc_root") if cl[0].get("exc_base") else "-",
+        "siblings": "+".join(str(len(cs.get("siblings", []))) for cs in cl),
+        "sibling_kw_only": sum(1 for cs in cl for s_ in cs.get("siblings", []) if s_.get("kw_only")),
+        "deco": "+".join(("-" if not cs.get("deco") else ("S" if cs["deco"].get("shared") else "o") + str(len(cs["deco"].get("warm", []))))
+                         for cs in cl),
+        "transformer": sum(1 for cs in cl if cs.get("field_transformer")),
+        "odd_values": ",".join(odd) or "-",
+        "v_shared": sum(1 for f in fs if f.get("validators") and f.get("v_shared")),
+        "v_deco": sum(1 for f in fs if f.get("validators") and f.get("v_deco")),
+        "dflt_decorator": sum(1 for f in fs if f.get("default") == "decorator"),
+    }
+
+
+def _plain_token(v, i):
+    return f"t{i + 1}" if ib._ODD_RE.match(v) else v
+
+
+def shrink_history(case, remake):
+    """drop the definition history / odd values first: a failing input that does not need them is simpler"""
+    h = case["hspec"]
+    call = case["call"]
+    for ci, cs in enumerate(h["classes"]):
+        for key in ("siblings", "deco", "field_transformer"):
+            if cs.get(key):
+                h2 = copy.deepcopy(h)
+                h2["classes"][ci].pop(key)
+                yield from remake(h2, call)
+        sibs = cs.get("siblings") or []
+        if len(sibs) > 1:
+            for si in range(len(sibs)):
+                h2 = copy.deepcopy(h)
+                del h2["classes"][ci]["siblings"][si]
+                yield from remake(h2, call)
+        for si, sb in enumerate(sibs):
+            for key, v in (("fields", []), ("kw_only", False), ("field_transformer", None), ("deco", None), ("api", "attr.s")):
+                if sb.get(key) and sb.get(key) != v:
+                    h2 = copy.deepcopy(h)
+                    h2["classes"][ci]["siblings"][si][key] = v
+                    yield from remake(h2, call)
+        if cs.get("deco") and cs["deco"].get("warm"):
+            for wi in range(len(cs["deco"]["warm"])):
+                h2 = copy.deepcopy(h)
+                del h2["classes"][ci]["deco"]["warm"][wi]
+                yield from remake(h2, call)
+        if cs.get("deco") and cs["deco"].get("shared"):
+            h2 = copy.deepcopy(h)
+            h2["classes"][ci]["deco"]["shared"] = False
+            yield from remake(h2, call)
+        for fi, f in enumerate(cs.get("fields", [])):
+            for key in ("v_shared", "v_deco", "v_and"):
+                if f.get(key):
+                    h2 = copy.deepcopy(h)
+                    h2["classes"][ci]["fields"][fi].pop(key)
+                    yield from remake(h2, call)
+            if f.get("default") == "decorator":
+                h2 = copy.deepcopy(h)
+                h2["classes"][ci]["fields"][fi]["default"] = "factory_self"
+                yield from remake(h2, call)
+    if h["classes"][0].get("exc_root") not in (None, "Exception"):
+        h2 = copy.deepcopy(h)
+        h2["classes"][0]["exc_root"] = "Exception"
+        yield from remake(h2, call)
+    vals = list(call["pos"]) + [v for _, v in call["kw"]]
+    if any(ib._ODD_RE.match(v) for v in vals):
+        for i in range(len(vals)):
+            if ib._ODD_RE.match(vals[i]):
+                pos = [(_plain_token(v, j) if j == i else v) for j, v in enumerate(call["pos"])]
+                kw = [[k, (_plain_token(v, len(call["pos"]) + j) if len(call["pos"]) + j == i else v)] for j, (k, v) in enumerate(call["kw"])]
+                yield from remake(h, {"pos": pos, "kw": kw})
 
 
 def shrink(case):
@@ -165,6 +263,7 @@ def shrink(case):
                     continue
         return
     h = case["hspec"]
+    yield from shrink_history(case, _remake)
     # drop a field / a class / reset options, then rebuild the case
     for ci, cs in enumerate(h["classes"]):
         for fi in range(len(cs.get("fields", []))):
@@ -174,9 +273,11 @@ def shrink(case):
     if len(h["classes"]) > 1:
         for ci in range(len(h["classes"]) - 1):
             h2 = copy.deepcopy(h)
-            eb = h2["classes"][0].get("exc_base")
+            eb, er = h2["classes"][0].get("exc_base"), h2["classes"][0].get("exc_root")
             del h2["classes"][ci]
             h2["classes"][0]["exc_base"] = eb
+            if er:
+                h2["classes"][0]["exc_root"] = er
             yield from _remake(h2, case["call"])
     for ci, cs in enumerate(h["classes"]):
         for k, v in (("slots", None), ("kw_only", False), ("cache_hash", False), ("pre", "none"), ("post", False),
@@ -215,5 +316,5 @@ def neighbours(case, rng):
             yield make_case(case["hspec"], ib.gen_call(rng, case["hspec"], malformed=0.05))
         return
     for _ in range(12):
-        yield make_case(case["hspec"], ib.gen_call(rng, case["hspec"]))
+        yield make_case(case["hspec"], ib.gen_call(rng, case["hspec"], odd=ODD))
     yield from shrink(case)
